@@ -250,6 +250,35 @@ CLAIMED["C15"] = dict(
    technique="Coq proof by computation over an AST-generated table + abstract reload theorem + bit-exact reload search",
    design="DESIGN.md section 4, C15")
 
+CLAIMED["C16"] = dict(
+   text="PARTIAL by nature (autograd's engine is trusted). Proved in Coq: a table of every detach / no_grad / .data / "
+        ".item() in the library, regenerated on each run, contains no construct on an evaluation path (only constructors, "
+        "sampling code, the two documented statistics updates, a numpy helper); in-place writes never hit tensors an "
+        "earlier differentiable op needs (shared with C13); the generated formulas are differentiable in the input AND in "
+        "the parameters with the stated finite derivatives (affine kernel, ActNorm log-scale/shift, learned sigmoid "
+        "temperature, rational-quadratic bin in x and in both knot derivatives on the whole bin). The search "
+        "back-propagates a random functional of outputs and log-dets (resp. log_prob of three flows) to inputs, context "
+        "and every parameter for every catalogue transform in both modes and compares with central finite differences.",
+   note="Trusted: Coq kernel; Reals/Coquelicot axioms; translator tables; torch.autograd; UMNN's custom Function "
+        "(third-party, relaxed tolerance). That the returned gradients equal the true derivatives is tested, not proved.",
+   technique="Coq proof (Coquelicot ex_derive/is_derive, table by computation) + finite-difference gradient check",
+   design="DESIGN.md section 4, C16")
+CLAIMED["C19"] = dict(
+   text="PARTIAL, stated plainly. Proved in Coq: results carry the dtype of the inputs (promotion-lattice theorem over "
+        "dimensioned tensors, zero-dim tensors and Python scalars; plus a table, regenerated on each run, of every cast to "
+        "float32 / factory call without dtype / torch.Tensor constructor outside constructors, all of which must lie in a "
+        "reviewed list of (file, function) pairs whose values never reach a returned float of another dtype); the bin "
+        "search returns an in-range index in ANY carrier, float32 included; the rational-quadratic denominators, "
+        "derivative numerators and discriminants keep their sign on the whole bin over the reals. NOT proved: a "
+        "float32-vs-float64 forward error bound for the transcendental code (no verified libm / Gappa here); that part "
+        "is covered only by the differential search: every catalogue transform in float32 against its float64 deep "
+        "copy, both directions, dtype / finiteness / agreement scaled by conditioning, and the spline functions on "
+        "knots in float32.",
+   note="Trusted: Coq kernel (the dtype and index theorems are axiom-free; the margins use the Reals axioms); "
+        "translator tables; harness. The agreement claim itself rests on testing.",
+   technique="Coq proof (promotion lattice, counting argument, real margins, table by computation) + float32/float64 differential search",
+   design="DESIGN.md section 4, C19")
+
 def main():
     checks = []
     for pid in ALL:
